@@ -363,7 +363,7 @@ func (x *run) newIdentity(rs *repState, name, email string) (entity.Id, error) {
 		// the id is handed out before the first commit (a bug may already name it as its author);
 		// whatever is still done to the identity before it is stored, that id stays
 		handedOut := i.Id()
-		if len(x.idents)%2 == 1 {
+		if model.Sha256Hex([]byte(fmt.Sprintf("%s|%s|%d", name, email, x.p.RunSeed)))[0]%2 == 1 { // a function of the input, so that repeating the action repeats it
 			i.SetMetadata("created-by", "simulation")
 			x.probe("identity_metadata_before_first_commit")
 		}
